@@ -69,8 +69,19 @@ pub fn render_key(k: &dyn KeyObj) -> KeyR {
   KeyR::Other(format!("{:?}", k))
 }
 
+/// Renders a (checker, stamp) pair; a zero-sized-stamp checker is shown as the ordinary checker / stamp pair with the
+/// serial that the checker carries (the harness identifies dependencies by serial).
+pub fn render_pair(c: &dyn ValueObj, s: &dyn ValueObj) -> (ValR, ValR) {
+  if let Some(z) = c.as_any().downcast_ref::<super::world::ZChk>() {
+    let is_unit_stamp = s.as_any().downcast_ref::<super::world::ZStamp>().is_some();
+    return (ValR::RChk(RChk { kind: z.kind, tag: 0 }), if is_unit_stamp { ValR::RStamp(RStamp { serial: z.serial, proj: None, real: super::world::RealStamp::None }) } else { render_val(s) });
+  }
+  (render_val(c), render_val(s))
+}
+
 pub fn render_val(v: &dyn ValueObj) -> ValR {
   let a = v.as_any();
+  if let Some(z) = a.downcast_ref::<super::world::ZChk>() { return ValR::RChk(RChk { kind: z.kind, tag: 0 }); }
   if let Some(x) = a.downcast_ref::<RStamp>() { return ValR::RStamp(*x); }
   if let Some(x) = a.downcast_ref::<RChk>() { return ValR::RChk(*x); }
   if let Some(x) = a.downcast_ref::<OStamp>() { return ValR::OStamp(*x); }
@@ -104,15 +115,15 @@ impl Tracker for Rec {
   fn build_start(&mut self) { self.push(TK::BuildStart, KeyR::None, ValR::None, ValR::None, ValR::None, IncR::None); }
   fn build_end(&mut self) { self.push(TK::BuildEnd, KeyR::None, ValR::None, ValR::None, ValR::None, IncR::None); }
   fn require_start(&mut self, t: &dyn KeyObj, c: &dyn ValueObj) { self.push(TK::RequireStart, render_key(t), render_val(c), ValR::None, ValR::None, IncR::None); }
-  fn require_end(&mut self, t: &dyn KeyObj, c: &dyn ValueObj, s: &dyn ValueObj, o: &dyn ValueObj) { self.push(TK::RequireEnd, render_key(t), render_val(c), render_val(s), render_val(o), IncR::None); }
+  fn require_end(&mut self, t: &dyn KeyObj, c: &dyn ValueObj, s: &dyn ValueObj, o: &dyn ValueObj) { self.push(TK::RequireEnd, render_key(t), { let p = render_pair(c, s); p.0 }, render_pair(c, s).1, render_val(o), IncR::None); }
   fn read_start(&mut self, r: &dyn KeyObj, c: &dyn ValueObj) { self.push(TK::ReadStart, render_key(r), render_val(c), ValR::None, ValR::None, IncR::None); }
-  fn read_end(&mut self, r: &dyn KeyObj, c: &dyn ValueObj, s: &dyn ValueObj) { self.push(TK::ReadEnd, render_key(r), render_val(c), render_val(s), ValR::None, IncR::None); }
+  fn read_end(&mut self, r: &dyn KeyObj, c: &dyn ValueObj, s: &dyn ValueObj) { self.push(TK::ReadEnd, render_key(r), { let p = render_pair(c, s); p.0 }, render_pair(c, s).1, ValR::None, IncR::None); }
   fn write_start(&mut self, r: &dyn KeyObj, c: &dyn ValueObj) { self.push(TK::WriteStart, render_key(r), render_val(c), ValR::None, ValR::None, IncR::None); }
-  fn write_end(&mut self, r: &dyn KeyObj, c: &dyn ValueObj, s: &dyn ValueObj) { self.push(TK::WriteEnd, render_key(r), render_val(c), render_val(s), ValR::None, IncR::None); }
-  fn check_task_start(&mut self, t: &dyn KeyObj, c: &dyn ValueObj, s: &dyn ValueObj) { self.push(TK::CheckTaskStart, render_key(t), render_val(c), render_val(s), ValR::None, IncR::None); }
-  fn check_task_end(&mut self, t: &dyn KeyObj, c: &dyn ValueObj, s: &dyn ValueObj, i: Option<&dyn Debug>) { self.push(TK::CheckTaskEnd, render_key(t), render_val(c), render_val(s), ValR::None, inc_opt(i)); }
-  fn check_resource_start(&mut self, r: &dyn KeyObj, c: &dyn ValueObj, s: &dyn ValueObj) { self.push(TK::CheckResourceStart, render_key(r), render_val(c), render_val(s), ValR::None, IncR::None); }
-  fn check_resource_end(&mut self, r: &dyn KeyObj, c: &dyn ValueObj, s: &dyn ValueObj, i: Result<Option<&dyn Debug>, &dyn Error>) { self.push(TK::CheckResourceEnd, render_key(r), render_val(c), render_val(s), ValR::None, inc_res(i)); }
+  fn write_end(&mut self, r: &dyn KeyObj, c: &dyn ValueObj, s: &dyn ValueObj) { self.push(TK::WriteEnd, render_key(r), { let p = render_pair(c, s); p.0 }, render_pair(c, s).1, ValR::None, IncR::None); }
+  fn check_task_start(&mut self, t: &dyn KeyObj, c: &dyn ValueObj, s: &dyn ValueObj) { self.push(TK::CheckTaskStart, render_key(t), { let p = render_pair(c, s); p.0 }, render_pair(c, s).1, ValR::None, IncR::None); }
+  fn check_task_end(&mut self, t: &dyn KeyObj, c: &dyn ValueObj, s: &dyn ValueObj, i: Option<&dyn Debug>) { self.push(TK::CheckTaskEnd, render_key(t), { let p = render_pair(c, s); p.0 }, render_pair(c, s).1, ValR::None, inc_opt(i)); }
+  fn check_resource_start(&mut self, r: &dyn KeyObj, c: &dyn ValueObj, s: &dyn ValueObj) { self.push(TK::CheckResourceStart, render_key(r), { let p = render_pair(c, s); p.0 }, render_pair(c, s).1, ValR::None, IncR::None); }
+  fn check_resource_end(&mut self, r: &dyn KeyObj, c: &dyn ValueObj, s: &dyn ValueObj, i: Result<Option<&dyn Debug>, &dyn Error>) { self.push(TK::CheckResourceEnd, render_key(r), { let p = render_pair(c, s); p.0 }, render_pair(c, s).1, ValR::None, inc_res(i)); }
   fn execute_start(&mut self, t: &dyn KeyObj) {
     let key = render_key(t);
     if self.global { if let KeyR::Task(k) = &key { let k = *k; with_sim(|s| s.next_exec_key = Some(k)); } }
@@ -120,12 +131,12 @@ impl Tracker for Rec {
   }
   fn execute_end(&mut self, t: &dyn KeyObj, o: &dyn ValueObj) { self.push(TK::ExecuteEnd, render_key(t), ValR::None, ValR::None, render_val(o), IncR::None); }
   fn schedule_affected_by_task_start(&mut self, t: &dyn KeyObj) { self.push(TK::SchedByTaskStart, render_key(t), ValR::None, ValR::None, ValR::None, IncR::None); }
-  fn check_task_require_task_start(&mut self, t: &dyn KeyObj, c: &dyn ValueObj, s: &dyn ValueObj) { self.push(TK::CheckReqTaskStart, render_key(t), render_val(c), render_val(s), ValR::None, IncR::None); }
-  fn check_task_require_task_end(&mut self, t: &dyn KeyObj, c: &dyn ValueObj, s: &dyn ValueObj, i: Option<&dyn Debug>) { self.push(TK::CheckReqTaskEnd, render_key(t), render_val(c), render_val(s), ValR::None, inc_opt(i)); }
+  fn check_task_require_task_start(&mut self, t: &dyn KeyObj, c: &dyn ValueObj, s: &dyn ValueObj) { self.push(TK::CheckReqTaskStart, render_key(t), { let p = render_pair(c, s); p.0 }, render_pair(c, s).1, ValR::None, IncR::None); }
+  fn check_task_require_task_end(&mut self, t: &dyn KeyObj, c: &dyn ValueObj, s: &dyn ValueObj, i: Option<&dyn Debug>) { self.push(TK::CheckReqTaskEnd, render_key(t), { let p = render_pair(c, s); p.0 }, render_pair(c, s).1, ValR::None, inc_opt(i)); }
   fn schedule_affected_by_task_end(&mut self, t: &dyn KeyObj) { self.push(TK::SchedByTaskEnd, render_key(t), ValR::None, ValR::None, ValR::None, IncR::None); }
   fn schedule_affected_by_resource_start(&mut self, r: &dyn KeyObj) { self.push(TK::SchedByResStart, render_key(r), ValR::None, ValR::None, ValR::None, IncR::None); }
-  fn check_task_read_resource_start(&mut self, t: &dyn KeyObj, c: &dyn ValueObj, s: &dyn ValueObj) { self.push(TK::CheckReadResStart, render_key(t), render_val(c), render_val(s), ValR::None, IncR::None); }
-  fn check_task_read_resource_end(&mut self, t: &dyn KeyObj, c: &dyn ValueObj, s: &dyn ValueObj, i: Result<Option<&dyn Debug>, &dyn Error>) { self.push(TK::CheckReadResEnd, render_key(t), render_val(c), render_val(s), ValR::None, inc_res(i)); }
+  fn check_task_read_resource_start(&mut self, t: &dyn KeyObj, c: &dyn ValueObj, s: &dyn ValueObj) { self.push(TK::CheckReadResStart, render_key(t), { let p = render_pair(c, s); p.0 }, render_pair(c, s).1, ValR::None, IncR::None); }
+  fn check_task_read_resource_end(&mut self, t: &dyn KeyObj, c: &dyn ValueObj, s: &dyn ValueObj, i: Result<Option<&dyn Debug>, &dyn Error>) { self.push(TK::CheckReadResEnd, render_key(t), { let p = render_pair(c, s); p.0 }, render_pair(c, s).1, ValR::None, inc_res(i)); }
   fn schedule_affected_by_resource_end(&mut self, r: &dyn KeyObj) { self.push(TK::SchedByResEnd, render_key(r), ValR::None, ValR::None, ValR::None, IncR::None); }
   fn schedule_task(&mut self, t: &dyn KeyObj) { self.push(TK::ScheduleTask, render_key(t), ValR::None, ValR::None, ValR::None, IncR::None); }
 }
